@@ -435,3 +435,207 @@ Proof.
     - destruct count; destruct (Nat.leb _ _); discriminate. }
   subst p. rewrite H. cbn [apply_op o_text o_cur o_reg]. repeat split.
 Qed.
+
+(** ** the case operators, ~ and r: the text keeps its length, its line breaks stay where they are, and nothing outside
+    the range changes *)
+Lemma nth_map_mid {A} (f : A -> A) (a b c : list A) (j : nat) :
+  nth_error (a ++ map f b ++ c) j
+  = if Nat.leb (length a) j && Nat.ltb j (length a + length b) then option_map f (nth_error (a ++ b ++ c) j)
+    else nth_error (a ++ b ++ c) j.
+Proof.
+  destruct (Nat.leb_spec (length a) j) as [L|L]; cbn [andb].
+  - rewrite !(nth_error_app2 a) by exact L.
+    destruct (Nat.ltb_spec j (length a + length b)) as [M|M].
+    + rewrite !nth_error_app1 by (rewrite ?map_length; lia). apply nth_error_map.
+    + rewrite !nth_error_app2 by (rewrite ?map_length; lia). now rewrite map_length.
+  - now rewrite !nth_error_app1 by exact L.
+Qed.
+
+Lemma map_range_nth f (t : text) lo hi j : (lo <= hi <= length t)%nat ->
+  nth_error (map_range f t lo hi) j
+  = if Nat.leb lo j && Nat.ltb j hi then option_map f (nth_error t j) else nth_error t j.
+Proof.
+  intros H. unfold map_range. rewrite nth_map_mid.
+  rewrite <- (slice_parts t lo hi H).
+  rewrite firstn_length, (slice_length t lo hi H).
+  replace (Nat.min lo (length t)) with lo by lia. replace (lo + (hi - lo))%nat with hi by lia. reflexivity.
+Qed.
+
+Lemma map_range_length f (t : text) lo hi : (lo <= hi <= length t)%nat -> length (map_range f t lo hi) = length t.
+Proof.
+  intros H. unfold map_range. rewrite !app_length, map_length, firstn_length, skipn_length, (slice_length t lo hi H). lia.
+Qed.
+
+Lemma case_c_nl k c : (case_c k c =? nl) = (c =? nl).
+Proof.
+  unfold case_c, is_upper_c, is_lower_c, nl.
+  destruct k;
+    repeat match goal with
+           | |- context [(?a <=? ?b)] => destruct (N.leb_spec a b)
+           end; cbn [andb];
+    repeat match goal with
+           | |- context [(?a =? ?b)] => destruct (N.eqb_spec a b)
+           end; try reflexivity; lia.
+Qed.
+
+Lemma map_range_breaks k (t : text) lo hi j : (lo <= hi <= length t)%nat ->
+  is_nl_at (map_range (case_c k) t lo hi) j = is_nl_at t j.
+Proof.
+  intros H. unfold is_nl_at. rewrite (map_range_nth _ t lo hi j H).
+  destruct (Nat.leb lo j && Nat.ltb j hi); [|reflexivity].
+  destruct (nth_error t j) as [c|]; cbn [option_map]; [apply case_c_nl|reflexivity].
+Qed.
+
+Lemma map_range_outside f (t : text) lo hi : (lo <= hi <= length t)%nat ->
+  firstn lo (map_range f t lo hi) = firstn lo t /\ skipn hi (map_range f t lo hi) = skipn hi t.
+Proof.
+  intros H. unfold map_range.
+  assert (Hl : length (firstn lo t) = lo) by (rewrite firstn_length; lia).
+  split.
+  - rewrite firstn_app, Hl, Nat.sub_diag, firstn_O, app_nil_r, firstn_firstn. f_equal. lia.
+  - rewrite app_assoc, skipn_app.
+    assert (Hm : length (firstn lo t ++ map f (slice t lo hi)) = hi)
+      by (rewrite app_length, map_length, Hl, (slice_length t lo hi H); lia).
+    rewrite Hm, Nat.sub_diag, skipn_O, skipn_all2 by lia. reflexivity.
+Qed.
+
+(** the ends an operator range is clipped to are in order *)
+Lemma lines_ends_ok (t : text) a b : (a <= b)%nat ->
+  (line_start_from t (Nat.min a (length t)) <= line_end t (Nat.min b (length t)) <= length t)%nat.
+Proof.
+  intros H. pose proof (line_start_le t (Nat.min a (length t))).
+  pose proof (line_end_bounds t (Nat.min b (length t)) ltac:(lia)). lia.
+Qed.
+
+Definition range_ordered (r : orange) : Prop :=
+  match r with RLines a b _ => (a <= b)%nat | _ => True end.
+
+Theorem case_keeps_shape k s r : range_ordered r ->
+  length (o_text (apply_case k s r)) = length (o_text s)
+  /\ (forall j, is_nl_at (o_text (apply_case k s r)) j = is_nl_at (o_text s) j)
+  /\ o_reg (apply_case k s r) = o_reg s.
+Proof.
+  intros Hr. destruct r as [|p|lo0 hi0|a b kc]; cbn [apply_case o_text o_reg].
+  - repeat split.
+  - repeat split.
+  - pose proof (clip_ok (o_text s) lo0 hi0) as Hc. unfold clo, chi in Hc.
+    split; [apply map_range_length; exact Hc|]. split; [intros j; apply map_range_breaks; exact Hc|reflexivity].
+  - pose proof (lines_ends_ok (o_text s) a b Hr) as Hc.
+    split; [apply map_range_length; exact Hc|]. split; [intros j; apply map_range_breaks; exact Hc|reflexivity].
+Qed.
+
+Theorem case_char_locality k s lo0 hi0 :
+  let t := o_text s in
+  let hi := Nat.min hi0 (length t) in let lo := Nat.min lo0 hi in
+  firstn lo (o_text (apply_case k s (RChar lo0 hi0))) = firstn lo t
+  /\ skipn hi (o_text (apply_case k s (RChar lo0 hi0))) = skipn hi t.
+Proof.
+  cbv zeta. cbn [apply_case o_text]. apply map_range_outside.
+  pose proof (clip_ok (o_text s) lo0 hi0) as Hc. unfold clo, chi in Hc. exact Hc.
+Qed.
+
+(** ~ : only the case of characters on the cursor's line, from the cursor on, can change *)
+Theorem tilde_keeps_shape t count i : (i <= length t)%nat ->
+  length (o_text (run_tilde t count i)) = length t
+  /\ (forall j, is_nl_at (o_text (run_tilde t count i)) j = is_nl_at t j)
+  /\ firstn i (o_text (run_tilde t count i)) = firstn i t
+  /\ skipn (line_end t i) (o_text (run_tilde t count i)) = skipn (line_end t i) t.
+Proof.
+  intros Hi. unfold run_tilde. pose proof (line_end_bounds t i Hi) as Hb.
+  destruct (Nat.eqb i (line_end t i)); cbn [o_text]; [repeat split|].
+  set (hi := Nat.min (i + Nat.max count 1) (line_end t i)).
+  assert (Hc : (i <= hi <= length t)%nat) by (unfold hi; lia).
+  split; [apply map_range_length; exact Hc|]. split; [intros j; apply map_range_breaks; exact Hc|].
+  destruct (map_range_outside (case_c CToggle) t i hi Hc) as [Ha Hb']. split; [exact Ha|].
+  (* behind the line end: part of what lies behind [hi] *)
+  replace (line_end t i) with (hi + (line_end t i - hi))%nat by (unfold hi; lia).
+  rewrite <- !skipn_skipn_ops, Hb'. reflexivity.
+Qed.
+
+(** r : the text keeps its length; every character outside the replaced stretch stays *)
+Theorem replace_keeps_length t c count i : (i <= length t)%nat ->
+  length (o_text (run_replace t c count i)) = length t
+  /\ firstn i (o_text (run_replace t c count i)) = firstn i t.
+Proof.
+  intros Hi. unfold run_replace. pose proof (line_end_bounds t i Hi) as Hb.
+  destruct (Nat.ltb_spec (line_end t i) (i + Nat.max count 1)) as [L|L]; cbn [o_text]; [split; reflexivity|].
+  assert (Hc : (i <= i + Nat.max count 1 <= length t)%nat) by lia.
+  split; [apply map_range_length; exact Hc|apply (map_range_outside _ t i _ Hc)].
+Qed.
+
+(** ** J conserves what is written: the characters that are neither blanks nor line breaks, in their order *)
+Definition solid (t : text) : text := filter (fun c => negb (is_white c) && negb (c =? nl)) t.
+
+Lemma solid_app a b : solid (a ++ b) = solid a ++ solid b.
+Proof. apply filter_app. Qed.
+
+Lemma solid_drop_white l : solid (drop_white l) = solid l.
+Proof.
+  induction l as [|c r IH]; [reflexivity|]. cbn [drop_white].
+  destruct (is_white c) eqn:E; [|reflexivity].
+  rewrite IH. unfold solid. cbn [filter]. now rewrite E.
+Qed.
+
+Lemma solid_sp (b : bool) : solid (if b then [32%N] else []) = [].
+Proof. destruct b; reflexivity. Qed.
+
+Lemma join_acc_solid : forall ls acc col e1,
+  solid (fst (join_acc acc col e1 ls)) = solid acc ++ concat (map solid ls).
+Proof.
+  induction ls as [|l r IH]; intros acc col e1; cbn [join_acc map concat fst]; [now rewrite app_nil_r|].
+  rewrite IH, !solid_app, solid_drop_white.
+  rewrite solid_sp. cbn [app]. now rewrite app_assoc.
+Qed.
+
+Lemma lines_of_nonempty t : lines_of t <> [].
+Proof.
+  destruct t as [|c r]; cbn [lines_of]; [discriminate|].
+  destruct (c =? nl); [discriminate|]. destruct (lines_of r); discriminate.
+Qed.
+
+Lemma unlines_lines_of t : unlines (lines_of t) = t.
+Proof.
+  induction t as [|c r IH]; [reflexivity|]. cbn [lines_of].
+  destruct (N.eqb_spec c nl) as [->|N].
+  - pose proof (lines_of_nonempty r) as Hn. destruct (lines_of r) as [|l ls] eqn:E; [contradiction|].
+    cbn [unlines app]. cbn [unlines] in IH. now rewrite IH.
+  - destruct (lines_of r) as [|l ls] eqn:E; [exfalso; now apply (lines_of_nonempty r)|].
+    destruct ls as [|l2 ls]; cbn [unlines app] in *; now rewrite IH.
+Qed.
+
+Lemma solid_unlines ls : solid (unlines ls) = concat (map solid ls).
+Proof.
+  induction ls as [|l r IH]; [reflexivity|].
+  destruct r as [|l2 r]; [cbn [unlines map concat]; now rewrite app_nil_r|].
+  change (unlines (l :: l2 :: r)) with (l ++ [nl] ++ unlines (l2 :: r)).
+  rewrite !solid_app, IH. reflexivity.
+Qed.
+
+Theorem join_conserves_solid t count i : solid (o_text (run_join t count i)) = solid t.
+Proof.
+  unfold run_join.
+  set (ls := lines_of t). set (k := length (filter (fun c => c =? nl) (firstn i t))).
+  destruct (Nat.leb (length ls - k) 1); [reflexivity|].
+  destruct (skipn k ls) as [|first rest] eqn:E; [reflexivity|].
+  set (n := Nat.min (Nat.max count 2) (length ls - k)).
+  destruct (join_acc first 0 (last_char first) (firstn (n - 1) rest)) as [acc col] eqn:J.
+  cbn [o_text].
+  pose proof (join_acc_solid (firstn (n - 1) rest) first 0%nat (last_char first)) as Hs. rewrite J in Hs. cbn [fst] in Hs.
+  rewrite solid_unlines, map_app, concat_app. cbn [map concat]. rewrite Hs.
+  replace (solid t) with (solid (unlines ls)) by (unfold ls; now rewrite unlines_lines_of).
+  rewrite solid_unlines.
+  assert (Hls : ls = firstn k ls ++ first :: rest) by (rewrite <- E; symmetry; apply firstn_skipn).
+  assert (Hrest : rest = firstn (n - 1) rest ++ skipn (n - 1) rest) by (symmetry; apply firstn_skipn).
+  rewrite Hls at 2. rewrite map_app, concat_app. cbn [map concat].
+  f_equal. rewrite <- app_assoc. f_equal.
+  rewrite Hrest at 3. now rewrite map_app, concat_app.
+Qed.
+
+(** on the last line J changes nothing *)
+Theorem join_fail_is_noop (t : text) (count i : nat) :
+  (length (lines_of t) - length (filter (fun c : N => N.eqb c nl) (firstn i t)) <= 1)%nat ->
+  o_text (run_join t count i) = t.
+Proof.
+  intros H. unfold run_join.
+  destruct (Nat.leb_spec (length (lines_of t) - length (filter (fun c : N => N.eqb c nl) (firstn i t))) 1); [reflexivity|lia].
+Qed.
